@@ -321,7 +321,7 @@ func runC18(c *Ctx) {
 				c.check(okL && okH && lo == 24 && hi == 28, rule, fnName(fn)+": only bytes 24..27 (schema cookie) are randomised", c.pos(rr), "p[24:28]", "other bytes of the page are overwritten")
 			}
 		}
-		c.floor(rule, n, 8, "header byte rewrites (bytes 18/19)")
+		c.floor(rule, n, 2, "header byte rewrites (bytes 18/19)") // 8 on the reference tree; the copies may share one helper
 	}
 
 	la := newLockAnalysis(c.P)
